@@ -155,6 +155,18 @@ func c09(c *ev.Ctx) {
 				"summary": fmt.Sprintf("%s (%s): cancelled at instruction %d, call returned err=%v panic=%v", lp.name, apiName(j.run), cancelled, callErr, panicked), "script": lp.script})
 			return
 		}
+		// and once more on the same evaluator: the context is done, nothing runs, and the
+		// call comes back (an earlier failing call must not have left anything locked)
+		if j.run {
+			_, e2, p2, _ := evr.RunBool(obj)
+			if e2 == nil || p2 || evr.Steps() != 0 {
+				c.Violation(id, "second call after cancellation: "+lp.name, map[string]interface{}{"summary": fmt.Sprintf("%s: Run again after the cancelled Run gave err=%v panic=%v and dispatched %d instructions (an error and no execution expected)", lp.name, e2, p2, evr.Steps()), "script": lp.script})
+				return
+			}
+		} else if o2 := evr.Exec(obj); o2.Err == nil || o2.Steps != 0 {
+			c.Violation(id, "second call after cancellation: "+lp.name, map[string]interface{}{"summary": fmt.Sprintf("%s: Execute again after the cancelled Execute gave %s and dispatched %d instructions (an error and no execution expected)", lp.name, o2.Desc(), o2.Steps), "script": lp.script})
+			return
+		}
 		c.Count("instructions_after_cancel_total", int(stepsAfter))
 		if i%97 == 0 {
 			c.Sample(map[string]interface{}{"script": lp.script, "cancel_at_instruction": cancelled, "instructions_dispatched_after_cancel": stepsAfter, "api": apiName(j.run)})
